@@ -665,7 +665,7 @@ class Sum(Box):
         for arrow in terms:
             if (arrow.dom, arrow.cod) != (dom, cod):
                 raise AxiomError(messages.cannot_add(terms[0], arrow))
-        name = "Sum({})".format(repr(terms)) if terms\
+        name = "Sum({})".format(repr(self.terms)) if terms\
             else "Sum([], dom={}, cod={})".format(repr(dom), repr(cod))
         super().__init__(name, dom, cod)
 
